@@ -35,12 +35,10 @@ import (
 	"context"
 	"flag"
 	"fmt"
-	"io"
 	"log"
 	"net"
 	"net/url"
 	"path"
-	"sync"
 
 	"github.com/google/inverting-proxy/utils/tcpbridge/connection"
 )
@@ -79,19 +77,7 @@ func main() {
 			}
 			defer backendConn.Close()
 
-			var wg sync.WaitGroup
-			wg.Add(2)
-			go func() {
-				defer wg.Done()
-				io.Copy(backendConn, conn)
-				connection.CloseWrite(backendConn)
-			}()
-			go func() {
-				defer wg.Done()
-				io.Copy(conn, backendConn)
-				connection.CloseWrite(conn)
-			}()
-			wg.Wait()
+			connection.Relay(backendConn, conn)
 		}()
 	}
 }
